@@ -41,14 +41,14 @@ theorem takeWhile_digits (x : Bytes) (h : x.all isDec = true) : x.takeWhile isDe
   | nil => rfl
   | cons c x ih =>
     rw [List.all_cons, Bool.and_eq_true] at h
-    simp [List.takeWhile_cons, h.1, ih h.2]
+    simp [h.1, ih h.2]
 
 theorem dropWhile_digits (x : Bytes) (h : x.all isDec = true) : x.dropWhile isDec = [] := by
   induction x with
   | nil => rfl
   | cons c x ih =>
     rw [List.all_cons, Bool.and_eq_true] at h
-    simp [List.dropWhile_cons, h.1, ih h.2]
+    simp [h.1, ih h.2]
 
 theorem parseBody_digits (x : Bytes) (hne : x ≠ []) (h : x.all isDec = true) :
     parseBody isDec 10 101 1 false x = some (valOf 10 x, 0) := by
